@@ -1,4 +1,5 @@
 # adapted from https://github.com/ptrblck/pytorch_misc/blob/master/shared_dict.py
+from copy import deepcopy
 from multiprocessing import Manager
 
 from .cached_dataset import CachedDataset
@@ -18,7 +19,10 @@ class SharedDictDataset(CachedDataset):
         except KeyError:
             sample = self.dataset[idx]
             self.shared_dict[idx] = sample
-        return sample
+        # torch tensors are transferred to/from the manager process via shared memory -> the tensors of the returned
+        # sample share their memory with the cached sample -> return a copy
+        # (otherwise an inplace transform or an inplace operation of the caller would change the cached sample)
+        return deepcopy(sample)
 
     def dispose(self):
         self.shared_dict.clear()
